@@ -193,6 +193,161 @@ macro_rules! write_harness {
 write_harness!(write_mem, write_log, write, false);
 write_harness!(write_slice_mem, write_slice_log, write_slice, true);
 
+// ------------------------------------------------------------------------------- Bytes<usize>: stream forms with an in-memory stream
+// read_volatile_from / read_exact_volatile_from fill the container from a &[u8]; write_volatile_to /
+// write_all_volatile_to drain it into a &mut [u8]: up-to forms move min(count, rest of container, stream),
+// exact forms move count or fail, an address past the end is refused, nothing else changes.
+#[kani::proof]
+#[kani::unwind(22)]
+pub fn stream_read_from_mem() {
+    use crate::Bytes;
+    let mut fx = FxM::new();
+    let data: [u8; N + 1] = kani::any();
+    let (dl, addr, count): (usize, usize, usize) = (kani::any(), kani::any(), kani::any());
+    let exact: bool = false;
+    kani::assume(dl <= N + 1 && count <= N + 2);
+    let size = fx.size;
+    let mut src: &[u8] = &data[..dl];
+    let r: Result<usize> = if exact { fx.slice().read_exact_volatile_from(addr, &mut src, count).map(|_| count) } else { fx.slice().read_volatile_from(addr, &mut src, count) };
+    kani::cover!(!exact && addr > 0 && addr < size && count > size - addr && dl > size - addr);
+    let rest = src.len();
+    if !exact {
+        if addr > size { assert!(r.is_err(), "C04,C01: a stream read starting past the end must fail"); fx.untouched(); }
+        else {
+            let n = min(min(count, size - addr), dl);
+            assert!(matches!(r, Ok(c) if c == n), "C04,C03,C14: read_volatile_from must move min(count, rest of the container, stream) bytes and report that");
+            assert!(rest == dl - n, "C13,C03: the stream must be advanced by exactly the bytes consumed");
+            fx.wrote(addr, n, &data[..dl]);
+        }
+    } else if addr > size || count > size - addr {
+        assert!(r.is_err(), "C04,C01: an exact stream read that does not fit must fail");
+        assert!(rest == dl, "C14,C04: a refused exact transfer must not consume the stream");
+        fx.untouched();
+    } else if count <= dl {
+        assert!(r.is_ok() && rest == dl - count, "C04,C14: an exact stream read that fits and is fully served must succeed");
+        fx.wrote(addr, count, &data[..dl]);
+    } else {
+        assert!(r.is_err(), "C14: an exact stream read must fail when the stream ends early");
+    }
+}
+#[kani::proof]
+#[kani::unwind(22)]
+pub fn stream_exact_read_from_mem() {
+    use crate::Bytes;
+    let mut fx = FxM::new();
+    let data: [u8; N + 1] = kani::any();
+    let (dl, addr, count): (usize, usize, usize) = (kani::any(), kani::any(), kani::any());
+    let exact: bool = true;
+    kani::assume(dl <= N + 1 && count <= N + 2);
+    let size = fx.size;
+    let mut src: &[u8] = &data[..dl];
+    let r: Result<usize> = if exact { fx.slice().read_exact_volatile_from(addr, &mut src, count).map(|_| count) } else { fx.slice().read_volatile_from(addr, &mut src, count) };
+    kani::cover!(!exact && addr > 0 && addr < size && count > size - addr && dl > size - addr);
+    let rest = src.len();
+    if !exact {
+        if addr > size { assert!(r.is_err(), "C04,C01: a stream read starting past the end must fail"); fx.untouched(); }
+        else {
+            let n = min(min(count, size - addr), dl);
+            assert!(matches!(r, Ok(c) if c == n), "C04,C03,C14: read_volatile_from must move min(count, rest of the container, stream) bytes and report that");
+            assert!(rest == dl - n, "C13,C03: the stream must be advanced by exactly the bytes consumed");
+            fx.wrote(addr, n, &data[..dl]);
+        }
+    } else if addr > size || count > size - addr {
+        assert!(r.is_err(), "C04,C01: an exact stream read that does not fit must fail");
+        assert!(rest == dl, "C14,C04: a refused exact transfer must not consume the stream");
+        fx.untouched();
+    } else if count <= dl {
+        assert!(r.is_ok() && rest == dl - count, "C04,C14: an exact stream read that fits and is fully served must succeed");
+        fx.wrote(addr, count, &data[..dl]);
+    } else {
+        assert!(r.is_err(), "C14: an exact stream read must fail when the stream ends early");
+    }
+}
+#[kani::proof]
+#[kani::unwind(22)]
+pub fn stream_read_from_log() {
+    use crate::Bytes;
+    let mut fx = FxL::new();
+    let data = [7u8; N + 1];
+    let (dl, addr, count): (usize, usize, usize) = (kani::any(), kani::any(), kani::any());
+    kani::assume(dl <= N + 1 && count <= N + 2);
+    let size = fx.size;
+    let mut src: &[u8] = &data[..dl];
+    let _ = fx.slice().read_volatile_from(addr, &mut src, count);
+    if addr > size { fx.unmarked(); }
+    else { let n = min(min(count, size - addr), dl); if n == 0 { fx.unmarked(); } else { fx.marked(addr, n); } }
+}
+#[kani::proof]
+#[kani::unwind(22)]
+pub fn stream_write_to_mem() {
+    use crate::Bytes;
+    let mut fx = FxM::new();
+    let mut sink = [0u8; N + 1];
+    let (dl, addr, count): (usize, usize, usize) = (kani::any(), kani::any(), kani::any());
+    let exact: bool = false;
+    kani::assume(dl <= N + 1 && count <= N + 2);
+    let (o, size) = (fx.o, fx.size);
+    let (r, rest): (Result<usize>, usize) = {
+        let mut dst: &mut [u8] = &mut sink[..dl];
+        let r = if exact { fx.slice().write_all_volatile_to(addr, &mut dst, count).map(|_| count) } else { fx.slice().write_volatile_to(addr, &mut dst, count) };
+        (r, dst.len())
+    };
+    fx.untouched();
+    if !exact {
+        if addr > size { assert!(r.is_err(), "C04,C01: a stream write starting past the end must fail"); }
+        else {
+            let n = min(min(count, size - addr), dl);
+            assert!(matches!(r, Ok(c) if c == n), "C04,C03,C14: write_volatile_to must move min(count, rest of the container, sink) bytes and report that");
+            assert!(rest == dl - n, "C13,C03: the sink must be advanced by exactly the bytes written");
+            let mut i = 0;
+            while i < N + 1 { if i < n { assert!(sink[i] == fx.pre[o + addr + i], "C04,C03: byte handed to the sink is not the guest byte at that address"); } i += 1; }
+        }
+    } else if addr > size || count > size - addr {
+        assert!(r.is_err() && rest == dl, "C04,C14: an exact stream write that does not fit must fail without touching the sink");
+    } else if count <= dl {
+        assert!(r.is_ok() && rest == dl - count, "C04,C14: an exact stream write that fits must succeed");
+        let mut i = 0;
+        while i < N + 1 { if i < count { assert!(sink[i] == fx.pre[o + addr + i], "C04,C03: byte handed to the sink is not the guest byte at that address"); } i += 1; }
+    } else {
+        assert!(r.is_err(), "C14: an exact stream write must fail when the sink is full");
+    }
+}
+#[kani::proof]
+#[kani::unwind(22)]
+pub fn stream_exact_write_to_mem() {
+    use crate::Bytes;
+    let mut fx = FxM::new();
+    let mut sink = [0u8; N + 1];
+    let (dl, addr, count): (usize, usize, usize) = (kani::any(), kani::any(), kani::any());
+    let exact: bool = true;
+    kani::assume(dl <= N + 1 && count <= N + 2);
+    let (o, size) = (fx.o, fx.size);
+    let (r, rest): (Result<usize>, usize) = {
+        let mut dst: &mut [u8] = &mut sink[..dl];
+        let r = if exact { fx.slice().write_all_volatile_to(addr, &mut dst, count).map(|_| count) } else { fx.slice().write_volatile_to(addr, &mut dst, count) };
+        (r, dst.len())
+    };
+    fx.untouched();
+    if !exact {
+        if addr > size { assert!(r.is_err(), "C04,C01: a stream write starting past the end must fail"); }
+        else {
+            let n = min(min(count, size - addr), dl);
+            assert!(matches!(r, Ok(c) if c == n), "C04,C03,C14: write_volatile_to must move min(count, rest of the container, sink) bytes and report that");
+            assert!(rest == dl - n, "C13,C03: the sink must be advanced by exactly the bytes written");
+            let mut i = 0;
+            while i < N + 1 { if i < n { assert!(sink[i] == fx.pre[o + addr + i], "C04,C03: byte handed to the sink is not the guest byte at that address"); } i += 1; }
+        }
+    } else if addr > size || count > size - addr {
+        assert!(r.is_err() && rest == dl, "C04,C14: an exact stream write that does not fit must fail without touching the sink");
+    } else if count <= dl {
+        assert!(r.is_ok() && rest == dl - count, "C04,C14: an exact stream write that fits must succeed");
+        let mut i = 0;
+        while i < N + 1 { if i < count { assert!(sink[i] == fx.pre[o + addr + i], "C04,C03: byte handed to the sink is not the guest byte at that address"); } i += 1; }
+    } else {
+        assert!(r.is_err(), "C14: an exact stream write must fail when the sink is full");
+    }
+}
+
 // ------------------------------------------------------------------------------- Bytes<usize>: read / read_slice
 macro_rules! read_harness {
     ($mem:ident, $log:ident, $method:ident, $is_slice:tt) => {
